@@ -2,8 +2,8 @@
  * Unless explicitly stated otherwise all files in this repository are licensed under the Apache-2.0 License.
  * This product includes software developed at Datadog (https://www.datadoghq.com/). Copyright 2022 Datadog, Inc.
  **/
-use swc_common::{util::take::Take, Span};
-use swc_ecma_ast::ExprOrSpread;
+use swc_common::{util::take::Take, Span, SyntaxContext};
+use swc_ecma_ast::{ExprOrSpread, Ident};
 use swc_ecma_visit::swc_ecma_ast::{BinaryOp, Expr};
 
 use crate::visitor::ident_provider::{IdentKind, IdentProvider};
@@ -111,6 +111,13 @@ pub trait OperandHandler {
                             ident_provider,
                             ExpandArrays::No,
                         )
+                    } else {
+                        // a hole of the arguments array ([a, , b]) is an undefined argument of the call
+                        arguments.push(ExprOrSpread::from(Expr::Ident(Ident::new(
+                            "undefined".into(),
+                            *span,
+                            SyntaxContext::empty(),
+                        ))))
                     }
                 })
             }
